@@ -244,6 +244,10 @@ def oracle_c03(rr: Any, spec: Dict[str, Any]) -> "tuple[List[Violation], Dict[st
             hooks_open[d] = hooks_open.get(d, 0) - 1
             if hooks_open[d] <= 0 and d in exited:
                 open_cb.discard(d)
+        elif k == "loop_blocked":
+            if not any(x.kind == "event-loop-blocked-by-sync-function" for x in v):
+                v.append(Violation("event-loop-blocked-by-sync-function", f"while the sync function of delivery {d} ran in its executor thread the "
+                                   "worker's event loop did not run for three seconds: it processes nothing else meanwhile"))
         elif k == "task_start":
             if e.get("on_loop_thread") and not any(x.kind == "sync-function-on-loop-thread" for x in v):
                 v.append(Violation("sync-function-on-loop-thread", f"the blocking (sync) task function of delivery {d} ran on the event-loop thread: while it runs "
